@@ -154,11 +154,11 @@ theorem reset_frame (st : State) (wf : C04.TableWF st.lnode) (h : Nat) (env : En
 /-! ### non-vacuity: two sessions with coinciding rule ids and control-plane SEIDs -/
 example :
     let st0 : State := {}
-    let (st1, _) := step st0 (.request "p1" 1 (.assoc (some "4:p1"))) {}
-    let (st2, _) := step st1 (.request "p2" 1 (.assoc (some "4:p2"))) {}
-    let (st3, _) := step st2 (.request "p1" 2 (.est { nodeID := some "4:p1", cpSeid := some 7#64, far := [{ id := some 1 }] }))
+    let (st1, _) := step st0 (.request "p1" 1 (.assoc (some (.v4 "p1")))) {}
+    let (st2, _) := step st1 (.request "p2" 1 (.assoc (some (.v4 "p2")))) {}
+    let (st3, _) := step st2 (.request "p1" 2 (.est { nodeID := some (.v4 "p1"), cpSeid := some 7#64, far := [{ id := some 1 }] }))
                       { pending := [(default, { ok := true })] }
-    let (st4, _) := step st3 (.request "p2" 2 (.est { nodeID := some "4:p2", cpSeid := some 7#64, far := [{ id := some 1 }] }))
+    let (st4, _) := step st3 (.request "p2" 2 (.est { nodeID := some (.v4 "p2"), cpSeid := some 7#64, far := [{ id := some 1 }] }))
                       { pending := [(default, { ok := true })] }
     let (st5, o5) := step st4 (.request "p2" 3 (.mod { seid := 2, rfar := [{ id := some 1 }] }))
                       { pending := [(default, { ok := true })] }
